@@ -926,14 +926,21 @@ class Gen(object):
     body = []
     nl = []
     if cfg['bare_defs'] and self.chance(cfg['bare_defs']):
-      form = self.choice(['doc_only', 'ellipsis_only', 'doc_then_body', 'doc_then_body', 'const_only'])
+      form = self.choice(['doc_only', 'ellipsis_only', 'doc_then_body', 'doc_then_body', 'const_only', 'doc_multiline_then_body'])
       self.note('bare_def:' + form)
-      if form != 'doc_then_body':
+      if form not in ('doc_then_body', 'doc_multiline_then_body'):
         lines.append(sp + {'doc_only': '  """doc %s"""' % f, 'ellipsis_only': '  ...', 'const_only': '  17'}[form])
         e2 = env.copy()
         e2.bound[f] = 'fn'
         return e2
-      body.append('%s  "doc %s"' % (sp, f))
+      if form == 'doc_multiline_then_body':
+        # docstring lines with trailing blanks, whitespace-only lines, tabs, quotes and backslashes
+        body.append('%s  \'\'\'doc %s  ' % (sp, f))
+        for dl in self.draw(st.lists(st.sampled_from(['| a | b |   ', '   ', '', 'hard break  ', '\\t tab\\t', 'quote " \\\' end', '\\\\ backslash', '  indented']), min_size=1, max_size=3)):
+          body.append(dl)
+        body.append('%s  \'\'\'' % sp)
+      else:
+        body.append('%s  "doc %s"' % (sp, f))
     if cfg['nonlocals'] and not cfg['pure'] and self.chance(40):
       # nonlocal writes: only locals of the directly enclosing function that are definitely bound
       cands = sorted(n for n in captured if n in cfg['names'] and n not in env.readonly and n not in env.declared)
